@@ -17,6 +17,7 @@ func init() {
 const pkgCache = "core/arbitrators/caching"
 
 func checkC19(c *Ctx, r *Report) {
+	defer checkContainerFields(c, r, "C19.e")
 	w := c.W
 	r.NotDecided = append(r.NotDecided, "equality of the results of successive Run() calls and of a fresh session over all projects (a property of call histories on shared mutable state)", "that cached entities are indistinguishable from freshly computed ones (cache transparency as a value property)")
 	r.Assume = append(r.Assume, "source files do not change between passes (the property's premise); file versions are therefore equal and the version-aware guards take their `same version` arm")
